@@ -6,6 +6,7 @@
 
 mod c06;
 mod c07;
+mod c11;
 mod c12;
 mod codecref;
 mod ops;
@@ -85,6 +86,7 @@ fn oracle(prop: &str, op: &[&str], out: &str) -> Verdict {
         "C12" => c12::oracle(op, out),
         "C07" => c07::oracle(op, out),
         "C06" => c06::oracle(op, out),
+        "C11" => c11::oracle(op, out),
         _ => Verdict::NotApplicable,
     }
 }
@@ -94,6 +96,7 @@ fn generate(prop: &str, tier: &str, rng: &mut util::Prng) -> Vec<Case> {
         "C12" => c12::generate(tier, rng),
         "C07" => c07::generate(tier, rng),
         "C06" => c06::generate(tier, rng),
+        "C11" => c11::generate(tier, rng),
         _ => {
             eprintln!("unknown property {prop}");
             std::process::exit(2);
